@@ -93,6 +93,9 @@ V_C18(pst, r) == LET pre == Abs(pst)  post == Abs(r.st)  c == [k |-> r.k, a |-> 
     (* usual rules: no refusal reason of the specification applies => the store succeeds                  *)
     \cup (IF r.k = "store" /\ r.a \in rmv /\ Reasons(pre, Ev(r.a)) = {} /\ r.res # "ok" THEN {"ResubmitRefused"} ELSE {})
     \cup (IF r.k \in {"remove", "vanish"} /\ pst.extra # r.st.extra THEN {"ExtraTouched"} ELSE {})
+    (* ... and stays unretrievable until then: an event removed earlier in this history becomes retrievable again only *)
+    (* by the store call that resubmits it (not by a reopen, a rebuild or any call about another event)                *)
+    \cup (IF ((ToSet(r.st.retr) \ ToSet(pst.retr)) \cap rmv) \subseteq (IF r.k = "store" THEN {r.a} ELSE {}) THEN {} ELSE {"RemovedCameBack"})
 
 (* C15: references handed out by the living store object stay valid and unchanged.  rbase = the  *)
 (* distinct mapping base addresses that fresh lookups of every offset yield (interned), rok = every *)
